@@ -132,3 +132,26 @@ def replay(path):
         log("VIOLATION property=%s replay=%s" % (res["viols"][0]["prop"], path))
         return 1
     return 2 if res["problems"] else 0
+
+
+def dev(fams, runs, steps):
+    """Development aid: run families, validate, summarise every predicate that is false."""
+    seed = int(os.environ.get("VERIF_SEED", "1"))
+    bins = vcheck.build_harness(("sim",))
+    outdir = os.path.join(vcheck.OUT, "dev")
+    traces, bad = vcheck.run_families(bins["sim"], [(f, runs, steps) for f in fams.split(",")], seed, os.path.join(outdir, "traces"))
+    for job, rc, out in bad:
+        log("BAD", job, rc, out[-1500:])
+    res = vcheck.validate_traces(traces, os.path.join(outdir, "tlc"))
+    log("traces %d ok %d lines %d" % (len(traces), res["traces_ok"], res["lines"]))
+    summ = {}
+    for v in res["viols"]:
+        summ.setdefault(("VIOL", v["prop"], v["pred"]), []).append(v)
+    for v in res["nonconf"]:
+        summ.setdefault(("NONCONF", v["prop"], v["detail"].split("{")[-1][:40]), []).append(v)
+    for k, vs in sorted(summ.items()):
+        v = vs[0]
+        log("%s %s/%s x%d e.g. %s:%d %s" % (k[0], k[1], k[2], len(vs), os.path.basename(v["file"]), v["line"], v["detail"][:140]))
+    for p in res["problems"]:
+        log("PROBLEM", p)
+    return 0
